@@ -158,6 +158,25 @@ def all_pairs(m):
     return out
 
 
+COMMENTS = [[], ['one comment'], ['first', 'second'], ['first', 'second', 'third'], ['1', '2', '3', '4', '5']]
+TITLES = ['', 'pair potentials for the Al-Cu system', 'density functional fit, 2019', 'embedded atom model of Al', 'x' * 120, 'Title']
+
+
+def api_option_models(fs):
+    """rarely used options of the procedural writers (comments=, title=) and EAMPotential objects whose functions are assigned after construction"""
+    out = []
+    for i, els in enumerate((['Al'], ['Cu', 'Al'], ['Fe', 'Al', 'Cu'])):
+        up = unordered_pairs(els)
+        dens = ['%s->%s' % (a, b) for a in els for b in els][::2] if fs else list(els)
+        base = dict(fs=fs, embed=list(els), dens=dens, pairs=[list(p) for p in orient(up[::2], i % 3)], species='builtin', nr=3 + i, cutoff=2.5, nrho=2 + i, cutoff_rho=50.0)
+        for j, c in enumerate(COMMENTS):
+            out.append(dict(base, comments=c, comments_tuple=bool((i + j) % 2)))
+        for t in TITLES:
+            out.append(dict(base, title=t))
+        out.append(dict(base, assign_after=True))
+    return out
+
+
 def label_models(fs, tier):
     """models that differ from the enumerated ones only in their LABELS / in foreign pair potentials"""
     out = []
@@ -262,6 +281,14 @@ def api_objects(m, order=None):
                 dens[b] = R.api_defn(dens_fs_defn(el, b))
         else:
             dens = R.api_defn(dens_defn(el)) if el in m['dens'] else pf.zero()
+        if m.get('assign_after'):
+            # the object is created with place-holder functions; the real ones are assigned to its public attributes afterwards
+            e = ap.EAMPotential(el, Z + 1, 2.0 * mass, pf.constant(7.0), (dict((b, pf.constant(3.0)) for b in dens) if m['fs'] else pf.constant(3.0)), 9.9, 'sc')
+            e.atomicNumber, e.mass, e.latticeConstant, e.latticeType = Z, mass, a, lat
+            e.embeddingFunction = emb
+            e.electronDensityFunction = dens
+            eam.append(e)
+            continue
         eam.append(ap.EAMPotential(el, Z, mass, emb, dens, a, lat))
     pots = [ap.Potential(a, b, R.api_defn(pair_defn(a, b))) for a, b in all_pairs(m)]
     dip = [ap.Potential(a, b, R.api_defn(dip_defn(a, b))) for a, b in m.get('dip', [])]
@@ -294,12 +321,19 @@ def produce(m, target, route, spelling=None):
         else:
             drho = m['cutoff_rho'] / float(m['nrho'] - 1)
             dr = m['cutoff'] / float(m['nr'] - 1)
-            getattr(ap, PROC[target])(m['nrho'], drho, m['nr'], dr, eam, pots, fp)
+            kw = {}
+            if 'comments' in m and target.startswith('setfl'):
+                kw['comments'] = tuple(m['comments']) if m.get('comments_tuple') else list(m['comments'])
+            if 'title' in m and target.startswith('DL_POLY'):
+                kw['title'] = m['title']
+            getattr(ap, PROC[target])(m['nrho'], drho, m['nr'], dr, eam, pots, fp, **kw)
         return fp.getvalue()
     ini = eam_ini(m, spelling or target)
     if route == 'cfg':
         return R.write_tabulation(R.config_read(ini))
-    res = R.potable(ini, binary=binary, prefill=True)
+    res = R.potable(ini, binary=binary, prefill='symlink' if m['nr'] % 3 == 0 else True)
+    if getattr(res, 'link_replaced', False) and res.status == 0 and res.out_bytes == R.PREFILL:
+        raise RuntimeError('OUTPUT_FILE was a symbolic link: potable replaced the link and left the file it pointed to unchanged')
     if res.exc is not None:
         raise res.exc
     if res.status != 0:
